@@ -225,14 +225,15 @@ def _mismatch(obs, exp):
     return None
 
 
-def locate(letters, lab, iface, convmode, n):
-    """First letter whose prefix circuit already fails: -> (index, "raised"|"mismatch", exception type name) or None."""
+def locate(letters, lab, iface, convmode, n, dev=None):
+    """First letter whose prefix circuit already fails (same labels and device wires, state() measured):
+    -> (index, "raised"|"mismatch", exception type name) or None."""
     for k in range(1, len(letters) + 1):
         pre = letters[:k]
-        order = X.tape_order(pre, [], lab)
+        order = list(dev) if dev is not None else X.tape_order(pre, [], lab)
         _, ref, _ = X.ref_results(pre, [["state"]], n, order)
         try:
-            got = execute(pre, [["state"]], lab, None, iface, convmode)[0]
+            got = execute(pre, [["state"]], lab, dev, iface, convmode)[0]
         except (ImportError, MemoryError, OSError):
             raise
         except Exception as e:  # pylint: disable=broad-except
@@ -300,7 +301,7 @@ def check(spec):
     except (ImportError, MemoryError, OSError):
         raise
     except Exception as e:  # pylint: disable=broad-except
-        loc = locate(letters, lab, iface, convmode, n)
+        loc = locate(letters, lab, iface, convmode, n, dev)
         if loc is not None:
             sig = op_signature(letters, loc, iface, W, n)
         else:
@@ -314,7 +315,7 @@ def check(spec):
     for m, g, e in zip(meas, got, ref):
         d = _mismatch(g, e)
         if d is not None:
-            loc = locate(letters, lab, iface, convmode, n)
+            loc = locate(letters, lab, iface, convmode, n, dev)
             if loc is not None:
                 sig = op_signature(letters, loc, iface, W, n)
             elif isinstance(d, str):
